@@ -3,5 +3,694 @@ From Coq Require Import List NArith ZArith Bool Lia.
 Import ListNotations.
 From Verif Require Import Base.Val C18.Fs C18.FsLemmas C47.Model_C47 C47.Spec_C47.
 
-Lemma fresh_idem_proof : forall s, fresh (fresh s) = fresh s.
-Proof. intros [b u o t d]; reflexivity. Qed.
+(* ------------------------------------------------------------------ generic: runs and crashes *)
+Lemma run_opt_app a b s :
+  run_opt (a ++ b) s = match run_opt a s with Some s' => run_opt b s' | None => None end.
+Proof.
+  revert s; induction a as [|o r IH]; cbn; intro s; [reflexivity|].
+  destruct (apply_step s o); [apply IH|reflexivity].
+Qed.
+
+Lemma run_opt_run l s s' : run_opt l s = Some s' -> run l s = s'.
+Proof.
+  revert s; induction l as [|o r IH]; cbn; intros s H; [congruence|].
+  destruct (apply_step s o); [now apply IH|discriminate].
+Qed.
+
+Lemma crash_of_app a b s s' :
+  crash_of (a ++ b) s s' ->
+  crash_of a s s' \/ exists s1, run_opt a s = Some s1 /\ crash_of b s1 s'.
+Proof.
+  revert s; induction a as [|o r IH]; cbn; intros s H.
+  - right. exists s. split; [reflexivity|exact H].
+  - inversion H as [| ? ? ? ? Hm | ? ? ? s1 ? Ha Hc0]; subst.
+    + left. constructor.
+    + left. now apply crash_mid.
+    + apply IH in Hc0 as [Hc|[s2 [Hr Hc]]].
+      * left. eapply crash_later; eauto.
+      * right. exists s2. rewrite Ha. split; assumption.
+Qed.
+
+(* an invariant preserved by every step of the list (completed or interrupted) holds in every
+   crash state *)
+Definition preserves (P : st -> Prop) (o : step) : Prop :=
+  (forall s s1, P s -> apply_step s o = Some s1 -> P s1) /\
+  (forall s s', P s -> mid_step s o s' -> P s').
+
+Lemma crash_inv (P : st -> Prop) l :
+  Forall (preserves P) l -> forall s s', P s -> crash_of l s s' -> P s'.
+Proof.
+  intros HF s s' HP Hc. induction Hc as [l s|o l s s' Hmid|o l s s1 s' Happ Hc IH].
+  - exact HP.
+  - inversion HF as [|? ? Ho Hl]; subst. destruct Ho as [_ Hm]. eapply Hm; eauto.
+  - inversion HF as [|? ? Ho Hl]; subst. destruct Ho as [Ha _]. apply IH; [assumption|]. eapply Ha; eauto.
+Qed.
+
+Lemma run_opt_inv (P : st -> Prop) l :
+  Forall (preserves P) l -> forall s s', P s -> run_opt l s = Some s' -> P s'.
+Proof.
+  intros HF. induction HF as [|o r Ho _ IH]; cbn; intros s s' HP H.
+  - congruence.
+  - destruct (apply_step s o) eqn:E; [|discriminate]. eapply IH; [|exact H]. destruct Ho as [Ha _]. eauto.
+Qed.
+
+(* ------------------------------------------------------------------ recoverable is closed *)
+Lemma slot_ok_dir t : slot_ok (Some (SDir t)).
+Proof. right. eauto. Qed.
+Lemma slot_ok_none : slot_ok None.
+Proof. now left. Qed.
+#[local] Hint Resolve slot_ok_dir slot_ok_none : c47.
+
+Lemma recoverable_set w v s : recoverable s -> slot_ok v -> recoverable (set w v s).
+Proof. intros (Hb & Hu & Ho) Hv. destruct w; cbn; repeat split; assumption. Qed.
+
+Lemma recoverable_get w s : recoverable s -> slot_ok (get w s).
+Proof. intros (Hb & Hu & Ho). destruct w; assumption. Qed.
+
+Lemma step_recoverable o : preserves recoverable o.
+Proof.
+  split.
+  - intros s s1 HR H. destruct o; cbn in H.
+    + destruct (tf s); inversion H; subst; exact HR.
+    + destruct (get w s); inversion H; subst. apply recoverable_set; auto with c47.
+    + destruct (get a s) as [[|t]|] eqn:Ea; try discriminate.
+      assert (Hok : recoverable (set b (Some (SDir t)) (set a None s)))
+        by (apply recoverable_set; [apply recoverable_set|]; auto with c47).
+      destruct (get b s) as [[|t']|]; try discriminate.
+      * destruct (is_empty_tree t'); inversion H; subst; exact Hok.
+      * inversion H; subst; exact Hok.
+    + destruct (get w s) as [[|t]|]; inversion H; subst; try exact HR.
+      apply recoverable_set; auto with c47.
+    + destruct (dl s); inversion H; subst; exact HR.
+    + destruct (dl s); inversion H; subst; exact HR.
+    + destruct (dl s); inversion H; subst; exact HR.
+    + destruct (dl s); inversion H; subst; exact HR.
+    + destruct (tf s); inversion H; subst; exact HR.
+    + destruct (upd s) as [[|t0]|]; try discriminate.
+      destruct (is_empty_tree t0); inversion H; subst.
+      apply (recoverable_set Upd); auto with c47.
+    + destruct (base s) as [[|t]|]; try discriminate.
+      destruct (lookup t [name]) as [[]|]; inversion H; subst;
+        apply (recoverable_set Base); auto with c47.
+    + destruct (base s) as [[|t]|]; try discriminate.
+      destruct (lookup t [name]) as [[]|]; inversion H; subst;
+        apply (recoverable_set Base); auto with c47.
+  - intros s s' HR H. destruct o; cbn in H; try contradiction.
+    + destruct H as (ta & tb & _ & ->). apply recoverable_set; auto with c47.
+    + destruct H as (ta & tb & _ & ->). apply (recoverable_set Upd); auto with c47.
+Qed.
+
+Lemma recoverable_fresh s : recoverable s -> recoverable (fresh s).
+Proof. intros H; exact H. Qed.
+
+Lemma crash_recoverable l s s' : recoverable s -> crash_of l s s' -> recoverable s'.
+Proof.
+  intros HR Hc. eapply crash_inv; [|exact HR|exact Hc].
+  apply Forall_forall. intros o _. apply step_recoverable.
+Qed.
+
+(* ------------------------------------------------------------------ steps that leave the repository alone *)
+Definition no_base (o : step) : bool :=
+  match o with
+  | CreateT | CreateDl | WriteDl _ | CommitDl | DiscardDl | UnlinkT | Extract _ _ => true
+  | MkDir w | RmTree w => match w with Base => false | _ => true end
+  | RenameDir _ _ | OpenMeta _ | AppendMeta _ _ => false
+  end.
+
+Lemma no_base_preserves o b : no_base o = true -> preserves (fun s => base s = b) o.
+Proof.
+  intro Hn. split.
+  - intros s s1 HP H. destruct o; cbn in Hn, H; try discriminate.
+    + destruct (tf s); try discriminate; injection H as <-; exact HP.
+    + destruct w; try discriminate; cbn in H.
+      * destruct (upd s); try discriminate; injection H as <-; exact HP.
+      * destruct (old s); try discriminate; injection H as <-; exact HP.
+    + destruct w; try discriminate; cbn in H.
+      * destruct (upd s) as [[|t]|]; try discriminate; injection H as <-; exact HP.
+      * destruct (old s) as [[|t]|]; try discriminate; injection H as <-; exact HP.
+    + destruct (dl s); try discriminate; injection H as <-; exact HP.
+    + destruct (dl s); try discriminate; injection H as <-; exact HP.
+    + destruct (dl s); try discriminate; injection H as <-; exact HP.
+    + destruct (dl s); try discriminate; injection H as <-; exact HP.
+    + destruct (tf s); try discriminate; injection H as <-; exact HP.
+    + destruct (upd s) as [[|t0]|]; try discriminate.
+      destruct (is_empty_tree t0); try discriminate; injection H as <-; exact HP.
+  - intros s s' HP H. destruct o; cbn in Hn, H; try contradiction; try discriminate.
+    + destruct H as (ta & tb & _ & ->). destruct w; try discriminate; exact HP.
+    + destruct H as (ta & tb & _ & ->). exact HP.
+Qed.
+
+Lemma Forall_no_base_preserves l b :
+  forallb no_base l = true -> Forall (preserves (fun s => base s = b)) l.
+Proof.
+  intro H. apply Forall_forall. intros o Ho. apply no_base_preserves.
+  rewrite forallb_forall in H. now apply H.
+Qed.
+
+Lemma forallb_app' {A} (f : A -> bool) a b : forallb f (a ++ b) = forallb f a && forallb f b.
+Proof. apply forallb_app. Qed.
+
+Lemma no_base_writes cs : forallb no_base (map WriteDl cs) = true.
+Proof. induction cs; cbn; auto. Qed.
+
+Lemma no_base_exit s : forallb no_base (exit_steps s) = true.
+Proof.
+  unfold exit_steps. rewrite !forallb_app.
+  destruct (is_dir (old s)), (is_dir (upd s)), (tf s), (dl s); reflexivity.
+Qed.
+
+Lemma no_base_recover s b : base s = Some b -> forallb no_base (recover_steps s) = true.
+Proof.
+  intro Hb. unfold recover_steps. rewrite Hb. cbn.
+  destruct (is_dir (upd s)), (is_dir (old s)); reflexivity.
+Qed.
+
+(* ------------------------------------------------------------------ running the pieces *)
+Lemma run_writes cs : forall s d, dl s = Some d ->
+  run_opt (map WriteDl cs) s = Some (set_dl (Some (d ++ cs)) s).
+Proof.
+  induction cs as [|c cs IH]; cbn; intros s d Hd.
+  - rewrite app_nil_r. destruct s; cbn in *; subst; reflexivity.
+  - rewrite Hd. rewrite (IH _ (d ++ [c])); [|reflexivity].
+    destruct s; cbn. now rewrite <- app_assoc.
+Qed.
+
+(* the bookkeeping writes: only base/name changes, and it stays a regular file *)
+Definition file_or_none (o : option node) : Prop :=
+  o = None \/ exists d m u g t i, o = Some (File d m u g t i).
+
+Lemma run_appends name ds : forall s t,
+  base s = Some (SDir t) -> (exists d m u g tm i, lookup t [name] = Some (File d m u g tm i)) ->
+  exists t', run_opt (map (AppendMeta name) ds) s = Some (set Base (Some (SDir t')) s)
+             /\ (forall q, q <> [name] -> lookup t' q = lookup t q)
+             /\ file_or_none (lookup t' [name]).
+Proof.
+  induction ds as [|d ds IH]; intros s t Hb (d0 & m & u & g & tm & i & Hl).
+  - exists t. cbn. split; [|split].
+    + destruct s; cbn in *; subst; reflexivity.
+    + auto.
+    + right. eauto 10.
+  - destruct (IH (set Base (Some (SDir (set_node t [name] (meta_node (d0 ++ d) m)))) s)
+                  (set_node t [name] (meta_node (d0 ++ d) m))) as (t' & Hr & Hfr & Hf).
+    + reflexivity.
+    + rewrite lookup_set_same. unfold meta_node. eauto 10.
+    + exists t'. split; [|split].
+      * cbn in Hr |- *. rewrite Hb, Hl. cbn. rewrite Hr. destruct s; reflexivity.
+      * intros q Hq. rewrite Hfr by exact Hq. now rewrite lookup_set_other.
+      * exact Hf.
+Qed.
+
+Lemma run_meta chunk name v s t :
+  base s = Some (SDir t) -> file_or_none (lookup t [name]) ->
+  exists t', run_opt (meta_steps chunk name v) s = Some (set Base (Some (SDir t')) s)
+             /\ (forall q, q <> [name] -> lookup t' q = lookup t q)
+             /\ file_or_none (lookup t' [name]).
+Proof.
+  intros Hb Hf.
+  assert (Hid : exists t', Some s = Some (set Base (Some (SDir t')) s)
+             /\ (forall q, q <> [name] -> lookup t' q = lookup t q)
+             /\ file_or_none (lookup t' [name])).
+  { exists t. split; [|split]; auto. destruct s; cbn in *; subst; reflexivity. }
+  unfold meta_steps. destruct v as [[|c d]|]; try exact Hid.
+  cbn [run_opt apply_step]. rewrite Hb.
+  assert (Hgo : forall m, exists t',
+     run_opt (map (AppendMeta name) (chunks_of (S (length (c :: d))) chunk (c :: d)))
+             (set Base (Some (SDir (set_node t [name] (meta_node [] m)))) s)
+     = Some (set Base (Some (SDir t')) s)
+     /\ (forall q, q <> [name] -> lookup t' q = lookup t q)
+     /\ file_or_none (lookup t' [name])).
+  { intro m.
+    destruct (run_appends name (chunks_of (S (length (c :: d))) chunk (c :: d))
+                (set Base (Some (SDir (set_node t [name] (meta_node [] m)))) s)
+                (set_node t [name] (meta_node [] m))) as (t' & Hr & Hfr & Hff).
+    - reflexivity.
+    - rewrite lookup_set_same. unfold meta_node. eauto 10.
+    - exists t'. split; [|split].
+      + rewrite Hr. destruct s; reflexivity.
+      + intros q Hq. rewrite Hfr by exact Hq. now rewrite lookup_set_other.
+      + exact Hff. }
+  destruct Hf as [Hn|(d0 & m & u & g & tm & i & Hl)].
+  - rewrite Hn. apply Hgo.
+  - rewrite Hl. apply Hgo.
+Qed.
+
+Lemma no_meta_is_base o : no_base o = true -> True.
+Proof. trivial. Qed.
+
+(* the bookkeeping steps keep "the directory agrees with tnew off the bookkeeping names" *)
+Lemma etag_ne_modified : etag_name <> modified_name.
+Proof. discriminate. Qed.
+
+Definition is_meta_step (o : step) : bool :=
+  match o with
+  | OpenMeta n | AppendMeta n _ => str_eqb n etag_name || str_eqb n modified_name
+  | _ => false
+  end.
+
+Lemma meta_step_preserves tnew o :
+  is_meta_step o = true -> preserves (holds_new tnew) o.
+Proof.
+  intro Hm. split.
+  - intros s s1 (t' & Hb & Hn) H.
+    assert (Hset : forall name nd, str_eqb name etag_name || str_eqb name modified_name = true ->
+                    holds_new tnew (set Base (Some (SDir (set_node t' [name] nd))) s)).
+    { intros name nd Hname. exists (set_node t' [name] nd). split; [reflexivity|].
+      intros q Hq. rewrite lookup_set_other; [now apply Hn|].
+      intro Heq; subst q. apply Hq. apply orb_true_iff in Hname as [E|E]; apply str_eqb_eq in E; subst.
+      - now left.
+      - now right. }
+    destruct o; cbn in Hm, H; try discriminate; rewrite Hb in H.
+    + destruct (lookup t' [name]) as [[]|]; inversion H; subst; now apply Hset.
+    + destruct (lookup t' [name]) as [[]|]; inversion H; subst; now apply Hset.
+  - intros s s' _ H. destruct o; cbn in Hm, H; try discriminate; contradiction.
+Qed.
+
+Lemma is_meta_steps chunk name v :
+  str_eqb name etag_name || str_eqb name modified_name = true ->
+  forallb is_meta_step (meta_steps chunk name v) = true.
+Proof.
+  intro Hn. unfold meta_steps. destruct v as [[|c d]|]; try reflexivity.
+  generalize (chunks_of (S (length (c :: d))) chunk (c :: d)). intro l.
+  cbn [forallb is_meta_step]. rewrite Hn. cbn [andb].
+  induction l as [|x l IH]; cbn [map forallb is_meta_step]; [reflexivity|].
+  now rewrite Hn.
+Qed.
+
+Lemma no_base_holds_new tnew o : no_base o = true -> preserves (holds_new tnew) o.
+Proof.
+  intro Hn. split.
+  - intros s s1 (t' & Hb & Hnw) H.
+    destruct (no_base_preserves o (Some (SDir t')) Hn) as [Ha _].
+    exists t'. split; [eapply Ha; eauto|exact Hnw].
+  - intros s s' (t' & Hb & Hnw) H.
+    destruct (no_base_preserves o (Some (SDir t')) Hn) as [_ Hmid].
+    exists t'. split; [eapply Hmid; eauto|exact Hnw].
+Qed.
+
+(* ------------------------------------------------------------------ T1: a sync that does not update *)
+Lemma run_no_base l : forallb no_base l = true -> forall s, base (run l s) = base s.
+Proof.
+  induction l as [|o l IH]; cbn; intros H s; [reflexivity|].
+  apply andb_true_iff in H as [Ho Hl].
+  destruct (apply_step s o) eqn:E; [|reflexivity].
+  rewrite IH by exact Hl.
+  destruct (no_base_preserves o (base s) Ho) as [Hp _]. eapply Hp; eauto.
+Qed.
+
+Lemma no_base_download b cs : b <> None -> forallb no_base (download_steps b cs) = true.
+Proof.
+  intro Hb. unfold download_steps. destruct b; [|congruence]. cbn. apply no_base_writes.
+Qed.
+
+Lemma sync_no_base fixed force sv tar chunk s0 b :
+  base s0 = Some b ->
+  snd (sync fixed force sv tar chunk s0) <> Updated ->
+  forallb no_base (fst (sync fixed force sv tar chunk s0)) = true.
+Proof.
+  intros Hb. unfold sync. cbv zeta.
+  remember (fresh s0) as sf eqn:Esf.
+  assert (Hbf : base sf = Some b) by (subst sf; exact Hb).
+  remember (CreateT :: (if fixed then recover_steps sf else [])) as p1 eqn:Ep1.
+  assert (Hp1 : forallb no_base p1 = true).
+  { subst p1. destruct fixed; cbn; [now apply no_base_recover with b|reflexivity]. }
+  assert (Hb1 : base (run p1 sf) = Some b) by (rewrite run_no_base; auto).
+  assert (Hfin : forall l o, forallb no_base l = true -> forallb no_base (fst (finish l sf o)) = true).
+  { intros l o Hl. unfold finish. cbn [fst]. now rewrite forallb_app, Hl, no_base_exit. }
+  destruct (negb (N.eqb (sv_status sv) 200)); [intros _; now apply Hfin|].
+  destruct ((sv_inm sv && _) || _); [intros _; now apply Hfin|].
+  destruct (negb force && _); [intros _; now apply Hfin|].
+  rewrite Hb1.
+  assert (Hdl : forallb no_base (download_steps (Some b) (sv_chunks sv)) = true)
+    by (apply no_base_download; discriminate).
+  destruct b as [|t]; [intros _; now apply Hfin|].
+  destruct (negb (sv_complete sv)).
+  { intros _. apply Hfin. now rewrite forallb_app, Hp1, Hdl. }
+  destruct (upd (run p1 sf)).
+  { intros _. apply Hfin. now rewrite !forallb_app, Hp1, Hdl. }
+  destruct (old (run p1 sf)).
+  { intros _. apply Hfin. now rewrite !forallb_app, Hp1, Hdl. }
+  destruct (negb (snd tar)).
+  { intros _. apply Hfin. now rewrite !forallb_app, Hp1, Hdl. }
+  intro H. exfalso. apply H. reflexivity.
+Qed.
+
+Lemma failed_sync_untouched_proof :
+  forall fixed force sv tar chunk s0 b s',
+    base s0 = Some b ->
+    snd (sync fixed force sv tar chunk s0) <> Updated ->
+    crash_of (fst (sync fixed force sv tar chunk s0)) (fresh s0) s' ->
+    base s' = Some b.
+Proof.
+  intros fixed force sv tar chunk s0 b s' Hb Hout Hc.
+  refine (crash_inv (fun s => base s = Some b) _ _ (fresh s0) s' Hb Hc).
+  apply Forall_no_base_preserves. now apply sync_no_base with b.
+Qed.
+
+(* ------------------------------------------------------------------ the state after _pre_download *)
+Lemma pre_state s :
+  recoverable s ->
+  let p1 := CreateT :: recover_steps (fresh s) in
+  exists s1, run_opt p1 (fresh s) = Some s1 /\
+             base s1 = logical s /\ upd s1 = None /\ old s1 = None /\ tf s1 = Some [] /\ dl s1 = None
+             /\ slot_ok (base s1).
+Proof.
+  intros (Hb & Hu & Ho). destruct s as [b u o t d]. cbn in Hb, Hu, Ho.
+  destruct Hb as [->|[tb ->]], Hu as [->|[tu ->]], Ho as [->|[to ->]];
+    cbn; eexists; (split; [reflexivity|]); cbn; repeat split; auto with c47.
+Qed.
+
+Lemma staged_state s1 cs tnew ok :
+  upd s1 = None -> old s1 = None -> tf s1 = Some [] -> dl s1 = None -> slot_ok (base s1) ->
+  run_opt (download_steps (base s1) cs ++ [CommitDl; MkDir Upd; MkDir Old; Extract tnew ok]) s1
+  = Some (mkst (match base s1 with None => Some (SDir []) | b => b end)
+               (Some (SDir tnew)) (Some (SDir [])) (Some cs) None).
+Proof.
+  intros Hu Ho Ht Hd Hb. destruct s1 as [b u o t d]. cbn in *. subst.
+  unfold download_steps.
+  destruct Hb as [->|[tb ->]]; cbn [app run_opt apply_step get set base upd old tf dl set_dl set_tf].
+  - rewrite run_opt_app. erewrite run_writes by reflexivity. cbn. reflexivity.
+  - rewrite run_opt_app. erewrite run_writes by reflexivity. cbn. reflexivity.
+Qed.
+
+Definition meta_free (t : tree) : Prop :=
+  lookup t [etag_name] = None /\ lookup t [modified_name] = None.
+
+(* the two renames and the bookkeeping writes, from the staged state *)
+Lemma install_state chunk sv b0 tnew cs :
+  slot_ok b0 -> b0 <> None -> meta_free tnew ->
+  let sA := mkst b0 (Some (SDir tnew)) (Some (SDir [])) (Some cs) None in
+  exists t' told, b0 = Some (SDir told) /\
+    run_opt (install_steps chunk sv) sA = Some (mkst (Some (SDir t')) None (Some (SDir told)) (Some cs) None)
+    /\ newish t' tnew.
+Proof.
+  intros Hb Hne (Hfe & Hfm) sA. destruct Hb as [->|[told ->]]; [congruence|].
+  unfold install_steps. cbn [app run_opt apply_step get set base upd old tf dl is_empty_tree sA].
+  rewrite run_opt_app.
+  destruct (run_meta chunk etag_name (sv_etag sv)
+              (mkst (Some (SDir tnew)) None (Some (SDir told)) (Some cs) None) tnew)
+    as (t1 & Hr1 & Hf1 & Hn1); [reflexivity|left; exact Hfe|].
+  rewrite Hr1. cbn [set base upd old tf dl].
+  destruct (run_meta chunk modified_name (sv_mod sv)
+              (mkst (Some (SDir t1)) None (Some (SDir told)) (Some cs) None) t1)
+    as (t2 & Hr2 & Hf2 & Hn2); [reflexivity| |].
+  { left. rewrite Hf1; [exact Hfm|]. intro E. injection E as E. symmetry in E. now apply etag_ne_modified. }
+  rewrite Hr2. cbn [set base upd old tf dl].
+  exists t2, told. split; [reflexivity|]. split; [reflexivity|].
+  intros q Hq. rewrite Hf2, Hf1; [reflexivity| |].
+  - intro E. apply Hq. now left.
+  - intro E. apply Hq. now right.
+Qed.
+
+(* ------------------------------------------------------------------ the shape of an updating sync *)
+Definition stage4 (tar : tree * bool) : list step :=
+  [CommitDl; MkDir Upd; MkDir Old; Extract (fst tar) (snd tar)].
+
+Lemma sync_updated_form force sv tar chunk s :
+  recoverable s -> snd (sync true force sv tar chunk s) = Updated ->
+  exists s1, run_opt (CreateT :: recover_steps (fresh s)) (fresh s) = Some s1 /\
+    base s1 = logical s /\ upd s1 = None /\ old s1 = None /\ tf s1 = Some [] /\ dl s1 = None /\
+    slot_ok (base s1) /\ snd tar = true /\
+    let A := (CreateT :: recover_steps (fresh s)) ++ download_steps (base s1) (sv_chunks sv) ++ stage4 tar in
+    fst (sync true force sv tar chunk s)
+    = (A ++ install_steps chunk sv) ++ exit_steps (run (A ++ install_steps chunk sv) (fresh s)).
+Proof.
+  intros HR. destruct (pre_state s HR) as (s1 & Hr1 & Hb & Hu & Ho & Ht & Hd & Hok).
+  unfold sync. cbv beta iota zeta.
+  rewrite (run_opt_run _ _ _ Hr1).
+  destruct (negb (N.eqb (sv_status sv) 200)); [discriminate|].
+  destruct ((sv_inm sv && _) || _); [discriminate|].
+  destruct (negb force && _); [discriminate|].
+  rewrite Hu, Ho.
+  intro Hout. exists s1. repeat (split; [assumption|]).
+  destruct Hok as [E|[tb E]]; rewrite E in *.
+  - destruct (negb (sv_complete sv)); [discriminate|].
+    destruct (snd tar) eqn:Et; [|discriminate]. cbn [negb] in *.
+    split; [reflexivity|]. unfold finish, stage4. cbn [fst]. rewrite Et. reflexivity.
+  - destruct (negb (sv_complete sv)); [discriminate|].
+    destruct (snd tar) eqn:Et; [|discriminate]. cbn [negb] in *.
+    split; [reflexivity|]. unfold finish, stage4. cbn [fst]. rewrite Et. reflexivity.
+Qed.
+
+Lemma updated_runs force sv tar chunk s :
+  recoverable s -> meta_free (fst tar) -> snd (sync true force sv tar chunk s) = Updated ->
+  exists s1 t' told,
+    let p1 := CreateT :: recover_steps (fresh s) in
+    let A := p1 ++ download_steps (base s1) (sv_chunks sv) ++ stage4 tar in
+    let b0 := match base s1 with None => Some (SDir []) | b => b end in
+    let sA := mkst b0 (Some (SDir (fst tar))) (Some (SDir [])) (Some (sv_chunks sv)) None in
+    let s5 := mkst (Some (SDir t')) None (Some (SDir told)) (Some (sv_chunks sv)) None in
+    base s1 = logical s /\ b0 = Some (SDir told) /\
+    run_opt p1 (fresh s) = Some s1 /\
+    run_opt A (fresh s) = Some sA /\
+    run_opt (install_steps chunk sv) sA = Some s5 /\ newish t' (fst tar) /\
+    fst (sync true force sv tar chunk s) = (A ++ install_steps chunk sv) ++ [RmTree Old; UnlinkT].
+Proof.
+  intros HR Hmf Hout.
+  destruct (sync_updated_form force sv tar chunk s HR Hout)
+    as (s1 & Hr1 & Hb & Hu & Ho & Ht & Hd & Hok & Htar & Hform).
+  cbv zeta in Hform.
+  pose (b0 := match base s1 with None => Some (SDir []) | b => b end).
+  assert (Hb0ok : slot_ok b0) by (unfold b0; destruct Hok as [->|[tb ->]]; auto with c47).
+  assert (Hb0ne : b0 <> None) by (unfold b0; destruct (base s1); discriminate).
+  destruct (install_state chunk sv b0 (fst tar) (sv_chunks sv) Hb0ok Hb0ne Hmf)
+    as (t' & told & Eb0 & Hri & Hnew).
+  exists s1, t', told. cbv zeta.
+  assert (HA : run_opt ((CreateT :: recover_steps (fresh s)) ++
+                        download_steps (base s1) (sv_chunks sv) ++ stage4 tar) (fresh s)
+               = Some (mkst b0 (Some (SDir (fst tar))) (Some (SDir [])) (Some (sv_chunks sv)) None)).
+  { rewrite run_opt_app, Hr1. unfold stage4. now apply staged_state. }
+  split; [exact Hb|]. split; [exact Eb0|]. split; [exact Hr1|]. split; [exact HA|].
+  split; [exact Hri|]. split; [exact Hnew|].
+  rewrite Hform. f_equal.
+  erewrite run_opt_run; [|rewrite run_opt_app, HA; exact Hri].
+  reflexivity.
+Qed.
+
+(* ------------------------------------------------------------------ T3: the next sync completes *)
+Lemma updated_final force sv tar chunk s :
+  recoverable s -> meta_free (fst tar) -> snd (sync true force sv tar chunk s) = Updated ->
+  exists sf, run_opt (fst (sync true force sv tar chunk s)) (fresh s) = Some sf
+             /\ clean sf /\ holds_new (fst tar) sf.
+Proof.
+  intros HR Hmf Hout.
+  destruct (updated_runs force sv tar chunk s HR Hmf Hout)
+    as (s1 & t' & told & _ & _ & _ & HA & Hi & Hnew & Hform).
+  cbv zeta in *. rewrite Hform.
+  eexists. split.
+  - rewrite run_opt_app. rewrite run_opt_app. rewrite HA, Hi. cbn. reflexivity.
+  - split; [split; reflexivity|]. exists t'. split; [reflexivity|exact Hnew].
+Qed.
+
+Lemma unchanged_final force sv tar chunk s :
+  recoverable s -> snd (sync true force sv tar chunk s) = Unchanged ->
+  exists sf, run_opt (fst (sync true force sv tar chunk s)) (fresh s) = Some sf
+             /\ clean sf /\ base sf = logical s.
+Proof.
+  intros HR. destruct (pre_state s HR) as (s1 & Hr1 & Hb & Hu & Ho & Ht & Hd & Hok).
+  unfold sync. cbv beta iota zeta.
+  rewrite (run_opt_run _ _ _ Hr1).
+  assert (Hfin : exists sf, run_opt (fst (finish (CreateT :: recover_steps (fresh s)) (fresh s) Unchanged)) (fresh s) = Some sf
+                            /\ clean sf /\ base sf = logical s).
+  { unfold finish. cbn [fst]. rewrite (run_opt_run _ _ _ Hr1).
+    assert (He : exit_steps s1 = [UnlinkT])
+      by (unfold exit_steps; rewrite Hu, Ho, Ht, Hd; reflexivity).
+    rewrite He. rewrite run_opt_app, Hr1. cbn [run_opt apply_step]. rewrite Ht.
+    eexists. split; [reflexivity|]. cbn. repeat split; assumption. }
+  destruct (negb (N.eqb (sv_status sv) 200)); [discriminate|].
+  destruct ((sv_inm sv && _) || _); [intros _; exact Hfin|].
+  destruct (negb force && _); [intros _; exact Hfin|].
+  rewrite Hu, Ho.
+  destruct Hok as [E|[tb E]]; rewrite E;
+    destruct (negb (sv_complete sv)); try discriminate;
+    destruct (negb (snd tar)); discriminate.
+Qed.
+
+Lemma good_sync_outcome force sv tar chunk s :
+  recoverable s -> good_srv sv -> snd tar = true ->
+  snd (sync true force sv tar chunk s) = Updated \/ snd (sync true force sv tar chunk s) = Unchanged.
+Proof.
+  intros HR [Hst Hc] Htar. destruct (pre_state s HR) as (s1 & Hr1 & Hb & Hu & Ho & Ht & Hd & Hok).
+  unfold sync. cbv beta iota zeta.
+  rewrite (run_opt_run _ _ _ Hr1). rewrite Hst, Hc, Htar, Hu, Ho. cbn [N.eqb Pos.eqb negb].
+  destruct ((sv_inm sv && _) || _); [now right|].
+  destruct (negb force && _); [now right|].
+  destruct Hok as [E|[tb E]]; rewrite E; now left.
+Qed.
+
+Lemma next_sync_completes_proof :
+  forall force sv tar chunk s,
+    recoverable s -> good_srv sv -> snd tar = true -> meta_free (fst tar) ->
+    exists sf, run_opt (fst (sync true force sv tar chunk s)) (fresh s) = Some sf /\ clean sf /\
+      ((snd (sync true force sv tar chunk s) = Updated /\ holds_new (fst tar) sf) \/
+       (snd (sync true force sv tar chunk s) = Unchanged /\ base sf = logical s)).
+Proof.
+  intros force sv tar chunk s HR Hg Htar Hmf.
+  destruct (good_sync_outcome force sv tar chunk s HR Hg Htar) as [Hout|Hout].
+  - destruct (updated_final force sv tar chunk s HR Hmf Hout) as (sf & Hr & Hc & Hn).
+    exists sf. split; [exact Hr|]. split; [exact Hc|]. left. split; assumption.
+  - destruct (unchanged_final force sv tar chunk s HR Hout) as (sf & Hr & Hc & Hn).
+    exists sf. split; [exact Hr|]. split; [exact Hc|]. right. split; assumption.
+Qed.
+
+(* ------------------------------------------------------------------ T2: crash states of an updating sync *)
+Lemma crash_old_or_new_partial_proof :
+  forall force sv tar chunk s0 t0 s',
+    recoverable s0 -> base s0 = Some (SDir t0) -> meta_free (fst tar) ->
+    snd (sync true force sv tar chunk s0) = Updated ->
+    crash_of (fst (sync true force sv tar chunk s0)) (fresh s0) s' ->
+    old_or_new (Some (SDir t0)) (fst tar) s' \/ window t0 (fst tar) s'.
+Proof.
+  intros force sv tar chunk s0 t0 s' HR Hb Hmf Hout Hc.
+  destruct (updated_runs force sv tar chunk s0 HR Hmf Hout)
+    as (s1 & t' & told & Hb1 & Eb0 & Hr1 & HA & Hi & Hnew & Hform).
+  cbv zeta in *. rewrite Hform in Hc.
+  assert (Hl : logical s0 = Some (SDir t0)) by (unfold logical; rewrite Hb; reflexivity).
+  rewrite Hl in Hb1. rewrite Hb1 in *. injection Eb0 as <-.
+  apply crash_of_app in Hc as [Hc|(s5 & Hr5 & Hc)].
+  - apply crash_of_app in Hc as [Hc|(sA & HrA & Hc)].
+    + left. left. left.
+      refine (crash_inv (fun s => base s = Some (SDir t0)) _ _ (fresh s0) s' Hb Hc).
+      apply Forall_no_base_preserves. rewrite !forallb_app.
+      apply andb_true_iff. split; [|apply andb_true_iff; split].
+      * cbn. now apply no_base_recover with (SDir t0).
+      * apply no_base_download. discriminate.
+      * reflexivity.
+    + rewrite HA in HrA. injection HrA as <-.
+      unfold install_steps in Hc. cbn [app] in Hc.
+      inversion Hc as [ | ? ? ? ? Hm | ? ? ? s2 ? Ha Hc2]; subst.
+      * left. left. left. reflexivity.
+      * cbn in Hm. contradiction.
+      * cbn in Ha. injection Ha as <-.
+        inversion Hc2 as [ | ? ? ? ? Hm | ? ? ? s3 ? Ha3 Hc3]; subst.
+        -- right. repeat split.
+        -- cbn in Hm. contradiction.
+        -- cbn in Ha3. injection Ha3 as <-. left. right.
+           refine (crash_inv (holds_new (fst tar)) _ _ _ s' _ Hc3).
+           ++ apply Forall_forall. intros o Ho. apply meta_step_preserves.
+              apply in_app_or in Ho as [Ho|Ho].
+              ** assert (Hms : forallb is_meta_step (meta_steps chunk etag_name (sv_etag sv)) = true)
+                   by (apply is_meta_steps; reflexivity).
+                 rewrite forallb_forall in Hms. now apply Hms.
+              ** assert (Hms : forallb is_meta_step (meta_steps chunk modified_name (sv_mod sv)) = true)
+                   by (apply is_meta_steps; reflexivity).
+                 rewrite forallb_forall in Hms. now apply Hms.
+           ++ exists (fst tar). split; [reflexivity|]. intros q _. reflexivity.
+  - left. right. rewrite run_opt_app, HA, Hi in Hr5. injection Hr5 as <-.
+    refine (crash_inv (holds_new (fst tar)) _ _ _ s' _ Hc).
+    + repeat constructor; apply no_base_holds_new; reflexivity.
+    + exists t'. split; [reflexivity|exact Hnew].
+Qed.
+
+(* the full statement (every crash state holds the old or the new tree at the path) *)
+Definition crash_old_or_new_statement : Prop :=
+  forall force sv tar chunk s0 t0 s',
+    recoverable s0 -> base s0 = Some (SDir t0) -> meta_free (fst tar) ->
+    snd (sync true force sv tar chunk s0) = Updated ->
+    crash_of (fst (sync true force sv tar chunk s0)) (fresh s0) s' ->
+    old_or_new (Some (SDir t0)) (fst tar) s'.
+
+Definition ex_old : tree := [([[111%N]], File [1%N] 420 0 0 NOW 0)].
+Definition ex_new : tree := [([[110%N]], File [2%N] 420 0 0 NOW 0)].
+Definition ex_s0 : st := mkst (Some (SDir ex_old)) None None None None.
+Definition ex_srv : srv := mksrv 200 true false (Some [34;49;34]%N) None [7%N] true.
+Definition ex_window : st := mkst None (Some (SDir ex_new)) (Some (SDir ex_old)) (Some [7%N]) None.
+
+Lemma ex_window_reachable :
+  crash_of (fst (sync true false ex_srv (ex_new, true) 0 ex_s0)) (fresh ex_s0) ex_window.
+Proof.
+  vm_compute.
+  do 8 (eapply crash_later; [reflexivity|]). apply crash_here.
+Qed.
+
+Lemma crash_old_or_new_refuted_proof : ~ crash_old_or_new_statement.
+Proof.
+  intro H.
+  assert (Hx : old_or_new (Some (SDir ex_old)) ex_new ex_window).
+  { apply (H false ex_srv (ex_new, true) 0%nat ex_s0 ex_old ex_window).
+    - unfold recoverable; cbn; repeat split; auto with c47.
+    - reflexivity.
+    - split; reflexivity.
+    - reflexivity.
+    - exact ex_window_reachable. }
+  destruct Hx as [[Hx|[[Hx _]|[Hx _]]]|(t' & Hx & _)]; discriminate.
+Qed.
+
+(* ------------------------------------------------------------------ any history of interrupted syncs *)
+Inductive attempts (fixed : bool) : st -> st -> Prop :=
+| att_nil : forall s, attempts fixed s s
+| att_more : forall s force sv tar chunk s' s'',
+    crash_of (fst (sync fixed force sv tar chunk s)) (fresh s) s' ->
+    attempts fixed s' s'' -> attempts fixed s s''.
+
+Lemma attempts_recoverable fixed s s' : recoverable s -> attempts fixed s s' -> recoverable s'.
+Proof.
+  intros HR Ha. induction Ha as [|s force sv tar chunk s' s'' Hc _ IH]; [exact HR|].
+  apply IH. eapply crash_recoverable; [|exact Hc]. exact HR.
+Qed.
+
+(* the statement "after interruptions at any points the next sync completes", for either code *)
+Definition next_sync_statement (fixed : bool) : Prop :=
+  forall s0 s force sv tar chunk,
+    recoverable s0 -> attempts fixed s0 s ->
+    good_srv sv -> snd tar = true -> meta_free (fst tar) ->
+    exists sf, run_opt (fst (sync fixed force sv tar chunk s)) (fresh s) = Some sf /\ clean sf /\
+      ((snd (sync fixed force sv tar chunk s) = Updated /\ holds_new (fst tar) sf) \/
+       (snd (sync fixed force sv tar chunk s) = Unchanged /\ base sf = logical s)).
+
+Lemma next_sync_after_any_history_proof : next_sync_statement true.
+Proof.
+  intros s0 s force sv tar chunk HR Ha Hg Htar Hmf.
+  apply next_sync_completes_proof; auto. eapply attempts_recoverable; eauto.
+Qed.
+
+(* the code as pinned (no recovery in _pre_download): one crash after the staging mkdir and
+   every later sync fails with "failed creating repo update dirs" *)
+Definition ex_stale : st := mkst (Some (SDir ex_old)) (Some (SDir [])) None (Some [7%N]) None.
+
+Lemma legacy_next_sync_refuted_proof : ~ next_sync_statement false.
+Proof.
+  intro H.
+  destruct (H ex_s0 ex_stale false ex_srv (ex_new, true) 0%nat) as (sf & _ & _ & [[Ho _]|[Ho _]]).
+  - unfold recoverable; cbn; repeat split; auto with c47.
+  - eapply att_more with (force := false) (sv := ex_srv) (tar := (ex_new, true)) (chunk := 0%nat).
+    + vm_compute. do 5 (eapply crash_later; [reflexivity|]).
+      (* stop after MkDir Upd *) apply crash_here.
+    + apply att_nil.
+  - split; reflexivity.
+  - reflexivity.
+  - split; reflexivity.
+  - vm_compute in Ho. discriminate.
+  - vm_compute in Ho. discriminate.
+Qed.
+
+Lemma crash_preserves_recoverable_proof :
+  forall fixed force sv tar chunk s s',
+    recoverable s -> crash_of (fst (sync fixed force sv tar chunk s)) (fresh s) s' -> recoverable s'.
+Proof. intros. eapply crash_recoverable; [|eassumption]. assumption. Qed.
+
+(* ------------------------------------------------------------------ non-vacuity *)
+Example ex_updated : snd (sync true false ex_srv (ex_new, true) 0 ex_s0) = Updated.
+Proof. reflexivity. Qed.
+Example ex_updated_steps :
+  map step_tag (fst (sync true false ex_srv (ex_new, true) 0 ex_s0)) = [1;3;4;5;6;7;8;9;10;12;13;16;18]%N.
+Proof. reflexivity. Qed.
+Example ex_failed_unpack : snd (sync true false ex_srv (ex_new, false) 0 ex_s0) = Failed 5.
+Proof. reflexivity. Qed.
+Example ex_failed_fetch :
+  snd (sync true false (mksrv 404 true false None None [] true) (ex_new, true) 0 ex_s0) = Failed 1.
+Proof. reflexivity. Qed.
+Example ex_recoverable : recoverable ex_s0 /\ recoverable ex_window /\ recoverable ex_stale.
+Proof. unfold recoverable; cbn; repeat split; auto with c47. Qed.
+Example ex_meta_free : meta_free ex_new.
+Proof. split; reflexivity. Qed.
+(* the repaired sync started in the window state puts the old tree back before anything else *)
+Example ex_window_recovers :
+  base (run [CreateT; RenameDir Old Base] (fresh ex_window)) = Some (SDir ex_old)
+  /\ map step_tag (firstn 3 (fst (sync true false ex_srv (ex_new, true) 0 ex_window))) = [1;11;17]%N.
+Proof. split; reflexivity. Qed.
+(* ... and a follow-up sync from the window state ends with the new tree and no staging dirs *)
+Example ex_window_then_sync :
+  let r := sync true true ex_srv (ex_new, true) 0 ex_window in
+  snd r = Updated /\ holds_new_b ex_new (run (fst r) (fresh ex_window)) = true
+  /\ clean_b (run (fst r) (fresh ex_window)) = true.
+Proof. vm_compute. repeat split. Qed.
